@@ -5,16 +5,20 @@
 id=$1; demodir=$2; shift 2
 export GOFLAGS=-mod=mod GOPROXY=off
 wt=/tmp/wt-$id; mut=/tmp/mut-$id
+# demonstrations that need the race detector or the purego build say so in meta.txt
+XF=""
+grep -qi -- "-race" $mut/meta.txt 2>/dev/null && XF="$XF -race"
+grep -qi -- "tags purego\|-tags=purego" $mut/meta.txt 2>/dev/null && XF="$XF -tags purego"
 cd $wt || exit 2
 # the worktree may have been disturbed (git stash is shared between worktrees): rebuild its state from patch.diff
 git checkout -q -- . && git apply $mut/patch.diff || { echo "patch.diff does not apply to a clean worktree"; exit 2; }
 echo "== $id: patch"; git diff --stat | tail -n 3
 echo "== build+tests with patch"; (go build ./... && go test -vet=off -count=1 . ./proto/... ./compress/... ./chpool/... 2>&1 | grep -v "no test files" | tail -n 6)
 cp $mut/demo_test.go $wt/$demodir/zz_demo_test.go
-echo "== demo with patch (expect FAIL)"; (cd $wt/$demodir && go test -vet=off -count=1 -run 'Demo|Mut' . 2>&1 | tail -n 4)
+echo "== demo with patch (expect FAIL)"; (cd $wt/$demodir && go test $XF -vet=off -count=1 -run 'Demo|Mut' . 2>&1 | tail -n 4)
 git apply -R $mut/patch.diff
 cp $mut/demo_test.go $wt/$demodir/zz_demo_test.go
-echo "== demo without patch (expect ok)"; (cd $wt/$demodir && go test -vet=off -count=1 -run 'Demo|Mut' . 2>&1 | tail -n 3)
+echo "== demo without patch (expect ok)"; (cd $wt/$demodir && go test $XF -vet=off -count=1 -run 'Demo|Mut' . 2>&1 | tail -n 3)
 rm -f $wt/$demodir/zz_demo_test.go
 git apply $mut/patch.diff
 echo "== checks against the patched worktree (VERIF_REPO=$wt; /repo untouched)"
